@@ -219,6 +219,113 @@ func HBody15(ct, shape, k int) {
 	}
 }
 
+// plainQ: a byte that means itself inside a query value (no escape, separator or space spelling)
+func plainQ(c byte) bool {
+	return zz.And(zz.And(zz.And(c != '%', c != '+'), zz.And(c != '&', c != '=')), zz.And(zz.And(c != ';', c != '#'), zz.And(c > ' ', c < 0x7f)))
+}
+
+func allPlainQ(s string) bool {
+	ok := true
+	for i := 0; i < len(s); i++ {
+		ok = zz.And(ok, plainQ(s[i]))
+	}
+	return ok
+}
+
+// isBoolText: the texts a boolean parameter accepts (strconv.ParseBool's set, written out independently)
+func isBoolText(s string) bool {
+	r := false
+	for _, t := range []string{"1", "t", "T", "TRUE", "true", "True", "0", "f", "F", "FALSE", "false", "False"} {
+		r = zz.Or(r, zz.EqString(s, t))
+	}
+	return r
+}
+
+// isInt32Text: optional sign and 1..n digits (short texts only, so no range question arises)
+func isInt32Text(s string) bool {
+	if len(s) == 0 {
+		return false
+	}
+	signed := zz.Or(s[0] == '+', s[0] == '-')
+	ok := zz.Or(isDigit(s[0]), zz.And(signed, len(s) > 1))
+	for i := 1; i < len(s); i++ {
+		ok = zz.And(ok, isDigit(s[i]))
+	}
+	return ok
+}
+
+// HQuery15: structured requests for getP against an independent recogniser of what its parameters accept:
+// the handler is reached exactly for well-formed requests; duplicate, missing and mistyped parameters are
+// answered 400 without the handler.
+func HQuery15(shape, k int) {
+	h, st := &zzH15{}, &zzStage{}
+	s := zzServer15(h, st)
+	path, query := "/p/x/1", ""
+	var accept bool
+	decided := true
+	switch shape {
+	case 0: // required boolean with an arbitrary text
+		v := zz.String(k)
+		zz.Assume(allPlainQ(v))
+		query = "b=" + v
+		accept = isBoolText(v)
+	case 1: // required parameter missing, an optional one present
+		v := zz.String(k)
+		zz.Assume(allPlainQ(v))
+		query = "q=" + v
+		accept = false
+	case 2: // required primitive given twice
+		v := zz.String(k)
+		zz.Assume(allPlainQ(v))
+		query = "b=true&b=" + v
+		accept = false
+	case 3: // optional primitive given twice
+		v, w := zz.String(k), zz.String(k)
+		zz.Assume(zz.And(allPlainQ(v), allPlainQ(w)))
+		query = "b=1&q=" + v + "&q=" + w
+		accept = false
+	case 4: // defaulted optional primitive given twice
+		v := zz.String(k)
+		zz.Assume(allPlainQ(v))
+		query = "qd=" + v + "&b=0&qd=" + v
+		accept = false
+	case 5: // integer path parameter with an arbitrary text
+		v := zz.String(k)
+		for i := 0; i < len(v); i++ {
+			zz.Assume(zz.And(zz.And(v[i] != '/', v[i] != '%'), zz.And(v[i] > ' ', v[i] < 0x7f)))
+		}
+		path, query = "/p/x/"+v, "b=true"
+		accept = isInt32Text(v)
+	case 6: // arrays may repeat (exploded) and optional parameters may be absent: accepted
+		v, w := zz.String(k), zz.String(k)
+		zz.Assume(zz.And(allPlainQ(v), allPlainQ(w)))
+		query = "qa=" + v + "&b=false&qa=" + w
+		accept = true
+	case 7: // unknown parameters are ignored, also when repeated
+		v := zz.String(k)
+		zz.Assume(allPlainQ(v))
+		query = "zz=" + v + "&b=T&zz=" + v
+		accept = true
+	default:
+		decided = false
+	}
+	rec := &zzRec15{header: http.Header{}}
+	s.ServeHTTP(rec, &http.Request{Method: "GET", URL: &url.URL{Path: path, RawQuery: query}, Header: http.Header{}, Body: http.NoBody})
+	zz.Assert(rec.writes == 1, "exactly one response is written (query)")
+	if !decided {
+		return
+	}
+	if h.calls > 0 {
+		zz.Cover("query-accepted")
+		zz.Assert(accept, "a request with a duplicate, missing or mistyped parameter never reaches the handler")
+		zz.Assert(rec.status == 200, "an accepted request gets the handler's response")
+	} else {
+		zz.Cover("query-refused")
+		zz.Assert(zz.Not(accept), "a well-formed request reaches the handler")
+		zz.Assert(rec.status == 400, "a request refused at the parameter stage is answered 400")
+	}
+}
+
 func asErr[T error](err error, target *T) bool {
 	for err != nil {
 		if t, ok := err.(T); ok {
